@@ -33,6 +33,10 @@ class Facts:
                 except Exception:
                     pass
                 try:
+                    normalise_matches(b)
+                except Exception:
+                    pass
+                try:
                     simplify_lets(b)
                 except Exception:
                     pass
@@ -589,6 +593,61 @@ def _subst_locals(n, mapping, offset):
     return out
 
 
+def _ends_with_return(blk):
+    """A block whose last statement is `return X` (nothing after it): -> (statements before, X) or None."""
+    if not (isinstance(blk, dict) and blk.get("k") == "Block"):
+        return None
+    stmts = blk.get("stmts") or []
+    if blk.get("expr") is not None:
+        t = blk["expr"]
+        if isinstance(t, dict) and t.get("k") == "Ret" and "e" in t:
+            return stmts, t["e"]
+        return None
+    if not stmts:
+        return None
+    last = stmts[-1]
+    e = last.get("e") if last.get("k") in ("ExprS", "Semi") else None
+    if isinstance(e, dict) and e.get("k") == "Ret" and "e" in e:
+        return stmts[:-1], e["e"]
+    return None
+
+
+def eliminate_returns(blk):
+    """`{ A; if c { B; return X; } R; T }`  ==  `{ A; if c { B; X } else { R; T } }` — applied from the top of a function body, recursively into the
+    remainder.  Returns a new Block without `return`, or None when some `return` is not of this shape."""
+    if not (isinstance(blk, dict) and blk.get("k") == "Block"):
+        return None
+    stmts = list(blk.get("stmts") or [])
+    for i, st in enumerate(stmts):
+        e = st.get("e") if st.get("k") in ("ExprS", "Semi") else None
+        if not any(x.get("k") == "Ret" for x in walk(st, into_closures=False)):
+            continue
+        if not (isinstance(e, dict) and e.get("k") == "If" and e["c"].get("k") != "Let"):
+            return None
+        if any(x.get("k") == "Ret" for x in walk(e["c"], into_closures=False)):
+            return None
+        t_ret = _ends_with_return(e["t"])
+        rest = {"k": "Block", "stmts": stmts[i + 1:], "expr": blk.get("expr"), "ty": blk.get("ty"), "sp": blk.get("sp")}
+        if t_ret is not None and not any(x.get("k") == "Ret" for s_ in t_ret[0] for x in walk(s_, into_closures=False)):
+            then_blk = {"k": "Block", "stmts": list(t_ret[0]), "expr": t_ret[1], "ty": blk.get("ty"), "sp": e["t"].get("sp")}
+            else_src = rest
+            if "e" in e:
+                eb = e["e"] if e["e"].get("k") == "Block" else {"k": "Block", "stmts": [], "expr": e["e"]}
+                if eb.get("expr") is not None:
+                    return None
+                else_src = dict(rest, stmts=list(eb.get("stmts") or []) + rest["stmts"])
+            else_blk = eliminate_returns(else_src) if any(x.get("k") == "Ret" for x in walk(else_src, into_closures=False)) else else_src
+            if else_blk is None:
+                return None
+            new_if = {"k": "If", "c": e["c"], "t": then_blk, "e": else_blk, "ty": blk.get("ty"), "sp": e.get("sp")}
+            return {"k": "Block", "stmts": stmts[:i], "expr": new_if, "ty": blk.get("ty"), "sp": blk.get("sp")}
+        return None
+    te = blk.get("expr")
+    if isinstance(te, dict) and any(x.get("k") == "Ret" for x in walk(te, into_closures=False)):
+        return None
+    return blk
+
+
 def inline_new_helpers(F):
     """Normal form: a call of a crate function that the reference tree (refs/functions.json) does not have — a helper extracted by a later
     refactoring — is replaced by the helper's body, parameters substituted (places and simple expressions directly, anything else through a
@@ -611,6 +670,11 @@ def inline_new_helpers(F):
         body = b["body"]
         has_ret = any(x.get("k") == "Ret" for x in walk(body, into_closures=False))
         has_try = any(x.get("k") == "Try" for x in walk(body, into_closures=False))
+        if has_ret and not has_try:
+            nb = eliminate_returns(_deep(body))
+            if nb is not None:
+                b = dict(b, body=nb)
+                body, has_ret = nb, False
         calls_self = any(x.get("k") in ("Call", "MCall") and ((callee(x) if x.get("k") == "Call" else x.get("def")) == b["path"]) for x in walk(body))
         if has_ret or calls_self or not all(p_.get("k") == "Bind" for p_ in b["params"]):
             continue
@@ -721,6 +785,14 @@ def inline_new_helpers(F):
                 # look through one assignment / compound assignment / deref-free wrapper on the way to the inlined block
                 if isinstance(e, dict) and e.get("k") in ("Assign", "AssignOp") and isinstance(e.get("r"), dict):
                     holder, hk, e = e, "r", e["r"]
+                if isinstance(e, dict) and e.get("k") == "Ret" and isinstance(e.get("e"), dict):
+                    holder, hk, e = e, "e", e["e"]
+                while isinstance(e, dict) and e.get("k") == "Call" and len(e.get("args", [])) == 1 and (callee(e) or "").split("::")[-1] in ("Ok", "Err", "Some") \
+                        and isinstance(e["args"][0], dict) and e["args"][0].get("k") == "Block" and e["args"][0].get("_inlined"):
+                    blk_in = e["args"][0]
+                    out.extend(blk_in.get("stmts") or [])
+                    e["args"][0] = blk_in.get("expr")
+                    break
                 if isinstance(e, dict) and e.get("k") == "Block" and e.get("_inlined") and e.get("stmts"):
                     out.extend(e["stmts"])
                     if e.get("expr") is not None:
@@ -821,6 +893,149 @@ def _deep(e):
     if isinstance(e, list):
         return [_deep(x) for x in e]
     return e
+
+
+def normalise_matches(body):
+    """Two behaviour-preserving rewrites of expression forms into `if`:
+    (1) a `match` whose arms are all a plain binding, `_` or an integer / bool literal, with optional guards and an irrefutable last arm, becomes
+        `{ let m = scrutinee; if c1 { a1 } else if c2 { a2 } … else { an } }` (a binding arm's variable is the temporary; a literal arm tests
+        `m == literal`; guards are and-ed);
+    (2) `cond.then(|| v).ok_or(e)` / `cond.then_some(v).ok_or(e)` (and `ok_or_else(|| e)`) becomes `if cond { Ok(v) } else { Err(e) }`."""
+    root = body.get("body")
+    if not isinstance(root, dict):
+        return
+    fresh = [max([x.get("id", 0) for x in walk(root) if isinstance(x.get("id"), int)] + [0]) + 500000]
+
+    def blockify(e):
+        if isinstance(e, dict) and e.get("k") == "Block":
+            return e
+        return {"k": "Block", "stmts": [], "expr": e, "ty": (e or {}).get("ty"), "sp": (e or {}).get("sp")}
+
+    def rewrite_match(n):
+        arms = n.get("arms") or []
+        if len(arms) < 2:
+            return None
+        kinds = []
+        for a in arms:
+            p_ = a["pat"]
+            k = p_.get("k")
+            if k == "Wild":
+                kinds.append("wild")
+            elif k == "Bind" and "sub" not in p_:
+                kinds.append("bind")
+            elif k == "PLit" and p_.get("lit") in ("int", "bool"):
+                kinds.append("lit")
+            else:
+                return None
+        if kinds[-1] == "lit" or "guard" in arms[-1]:
+            return None
+        if all(k == "lit" for k in kinds[:-1]) and (n["e"].get("ty") == "bool"):
+            pass
+        fresh[0] += 1
+        tid = fresh[0]
+        sty = n["e"].get("ty")
+        tmp = {"k": "Local", "id": tid, "name": "__match", "ty": sty, "sp": n["e"].get("sp")}
+        # name the temporary after the first binding arm, if any (rules that name roles see the author's name)
+        for a in arms:
+            if a["pat"].get("k") == "Bind":
+                tmp["name"] = a["pat"]["name"]
+                break
+        let = {"k": "LetS", "pat": {"k": "Bind", "id": tid, "name": tmp["name"], "mode": "BindingMode(No, Not)", "ty": sty}, "init": n["e"], "sp": n["e"].get("sp")}
+
+        def subst(e, bid):
+            return _subst_locals(e, {bid: tmp}, 0)
+        chain = None
+        for a, kind in reversed(list(zip(arms, kinds))):
+            bodyx, guard = a["body"], a.get("guard")
+            if kind == "bind":
+                bodyx = subst(bodyx, a["pat"]["id"])
+                guard = subst(guard, a["pat"]["id"]) if guard is not None else None
+            cond = None
+            if kind == "lit":
+                pl = a["pat"]
+                if pl.get("lit") == "bool":
+                    cond = _deep(tmp) if pl.get("v") == "true" else {"k": "Un", "op": "Not", "e": _deep(tmp), "ty": "bool"}
+                else:
+                    lit = {"k": "Lit", "lit": "int", "v": pl["v"], "ty": sty}
+                    if pl.get("neg"):
+                        lit = {"k": "Un", "op": "Neg", "e": lit, "ty": sty}
+                    cond = {"k": "Bin", "op": "Eq", "l": _deep(tmp), "r": lit, "ty": "bool"}
+            if guard is not None:
+                cond = guard if cond is None else {"k": "Bin", "op": "And", "l": cond, "r": guard, "ty": "bool"}
+            if chain is None:
+                if cond is not None:
+                    return None
+                chain = blockify(bodyx)
+            else:
+                if cond is None:
+                    return None          # an irrefutable arm before the last one: the rest is dead; leave such code alone
+                chain = {"k": "If", "c": cond, "t": blockify(bodyx), "e": chain if chain.get("k") == "If" else chain, "ty": n.get("ty"), "sp": a["body"].get("sp")}
+        return {"k": "Block", "stmts": [let], "expr": chain, "ty": n.get("ty"), "sp": n.get("sp"), "_from_match": True}
+
+    def rewrite_then(n):
+        # recv.ok_or(E) / recv.ok_or_else(|| E) with recv = cond.then(|| V) / cond.then_some(V)
+        if n.get("k") != "MCall" or n["name"] not in ("ok_or", "ok_or_else") or len(n.get("args", [])) != 1:
+            return None
+        r = n["recv"]
+        if not (isinstance(r, dict) and r.get("k") == "MCall" and r["name"] in ("then", "then_some") and "bool" in (r.get("def") or "") and len(r.get("args", [])) == 1):
+            return None
+        v, e = r["args"][0], n["args"][0]
+        if r["name"] == "then":
+            if v.get("k") != "Closure" or v.get("params"):
+                return None
+            v = v["body"]
+        elif not _pure_expr(v):
+            return None
+        if n["name"] == "ok_or_else":
+            if e.get("k") != "Closure" or e.get("params"):
+                return None
+            e = e["body"]
+
+        def ctor(name, arg):
+            return {"k": "Call", "f": {"k": "Path", "def": "std::prelude::v1::" + name, "ctor_of": "std::result::Result::" + name, "dk": "Ctor(Variant, Fn)", "ty": ""}, "args": [arg], "ty": n.get("ty"), "sp": arg.get("sp")}
+        return {"k": "If", "c": r["recv"], "t": blockify(ctor("Ok", v)), "e": blockify(ctor("Err", e)), "ty": n.get("ty"), "sp": n.get("sp")}
+
+    def visit(n):
+        if isinstance(n, list):
+            for i, x in enumerate(n):
+                n[i] = visit(x)
+            return n
+        if not isinstance(n, dict):
+            return n
+        for k, v in list(n.items()):
+            if isinstance(v, (dict, list)):
+                n[k] = visit(v)
+        if n.get("k") == "Match":
+            r = rewrite_match(n)
+            if r is not None:
+                return r
+        if n.get("k") == "MCall":
+            r = rewrite_then(n)
+            if r is not None:
+                return r
+        return n
+    body["body"] = visit(root)
+    # a rewritten match that is a statement's whole expression: splice `let m = …` in front of the statement, leave the `if` chain as the statement
+    for blk in walk(body["body"]):
+        if blk.get("k") == "Block" and blk.get("stmts") is not None:
+            out = []
+            for st in blk["stmts"]:
+                key = "init" if st.get("k") == "LetS" else ("e" if st.get("k") in ("ExprS", "Semi") else None)
+                e = st.get(key) if key else None
+                holder, hk = st, key
+                if isinstance(e, dict) and e.get("k") in ("Assign", "AssignOp") and isinstance(e.get("r"), dict) and _pure_expr(e["l"]):
+                    holder, hk, e = e, "r", e["r"]
+                if isinstance(e, dict) and e.get("k") == "Ret" and isinstance(e.get("e"), dict):
+                    holder, hk, e = e, "e", e["e"]
+                if isinstance(e, dict) and e.get("_from_match"):
+                    out.extend(e["stmts"])
+                    holder[hk] = e["expr"]
+                out.append(st)
+            blk["stmts"] = out
+            te = blk.get("expr")
+            if isinstance(te, dict) and te.get("_from_match"):
+                blk["stmts"] = blk["stmts"] + list(te["stmts"])
+                blk["expr"] = te["expr"]
 
 
 def simplify_lets(body):
@@ -1010,14 +1225,16 @@ def simplify_lets(body):
             return None
 
         def mk(branch):
+            pre = []
             t = branch
-            while isinstance(t, dict) and t.get("k") == "Block" and not t.get("stmts") and t.get("expr") is not None:
+            while isinstance(t, dict) and t.get("k") == "Block" and t.get("expr") is not None:
+                pre += list(t.get("stmts") or [])        # statements of the branch stay in front of the constructed value
                 t = t["expr"]
-            if isinstance(branch, dict) and branch.get("k") == "Block" and branch.get("stmts"):
+            if isinstance(t, dict) and t.get("k") == "Block":
                 return None
             inner = dict(_deep(e), args=[t])
             d = ctor_over_if(inner)
-            return {"k": "Block", "stmts": [], "expr": d if d is not None else inner, "ty": e.get("ty"), "sp": branch.get("sp")}
+            return {"k": "Block", "stmts": pre, "expr": d if d is not None else inner, "ty": e.get("ty"), "sp": branch.get("sp")}
         tb, eb = mk(r["t"]), mk(r["e"])
         if tb is None or eb is None:
             return None
@@ -1031,3 +1248,33 @@ def simplify_lets(body):
             d = ctor_over_if(n["e"])
             if d is not None:
                 n["e"] = d
+    # (5) `return if c { A } else { B };` as a statement is `if c { return A } else { return B }` (recursively through else-if chains)
+    def ret_over_if(v):
+        t = v
+        while isinstance(t, dict) and t.get("k") == "Block" and not t.get("stmts") and t.get("expr") is not None:
+            t = t["expr"]
+        if not (isinstance(t, dict) and t.get("k") == "If" and "e" in t and t["c"].get("k") != "Let"):
+            return None
+
+        def br(b_):
+            pre, x = [], b_
+            while isinstance(x, dict) and x.get("k") == "Block" and x.get("expr") is not None:
+                pre += list(x.get("stmts") or [])
+                x = x["expr"]
+            if isinstance(x, dict) and x.get("k") == "Block":
+                return None
+            inner = ret_over_if(x)
+            last = {"k": "Semi", "e": inner if inner is not None else {"k": "Ret", "e": x, "ty": "!", "sp": x.get("sp")}, "sp": x.get("sp")}
+            return {"k": "Block", "stmts": pre + [last], "ty": "()", "sp": b_.get("sp")}
+        tb, eb = br(t["t"]), br(t["e"])
+        if tb is None or eb is None:
+            return None
+        return {"k": "If", "c": t["c"], "t": tb, "e": eb, "ty": "()", "sp": t.get("sp")}
+    for blk in walk(root):
+        if blk.get("k") == "Block" and blk.get("stmts"):
+            for st in blk["stmts"]:
+                e = st.get("e") if st.get("k") in ("ExprS", "Semi") else None
+                if isinstance(e, dict) and e.get("k") == "Ret" and isinstance(e.get("e"), dict):
+                    d = ret_over_if(e["e"])
+                    if d is not None:
+                        st["e"] = d
